@@ -85,8 +85,12 @@ reg('c15_rook_exact', 'C15', T, 5400, 16, 'all 64 squares x all 2^64 occupancies
     'c15::rook_exact', unwind=9)
 
 # ---------------------------------------------------------------- C16
-fam_side('c16_attackers_exact', 'C16', 'c16::attackers_exact', 's12', 65, 3000, 12, FULL + ' x 64 squares x 2 colours',
-         props=['C16', 'C19'])
+for sk, sc, sd in SIDES:
+    for bk, bc in [('by_white', 0), ('by_black', 1)]:
+        reg('c16_attackers_exact_%s_%s' % (sk, bk), 'C16', QT, 3000, 10, FULL + ' x 64 squares; attackers %s; %s' % (bk.replace('_', ' '), sd),
+            'c16::attackers_exact::<_, %s, %d>' % (sc, bc), 's12', 65, props=['C16', 'C19'])
+    reg('c16_check_queries_exact_%s' % sk, 'C16', QT, 3000, 10, FULL + '; is_check / checkers / is_opponent_king_attacked; ' + sd,
+        'c16::check_queries_exact::<_, %s>' % sc, 's12', 65, props=['C16', 'C19'])
 
 # ---------------------------------------------------------------- C06
 reg('c06_wellformed_exact', 'C06', QT, 300, 4, 'all 10 x 13 x 64 x 64 move tuples (exhaustive)', 'c06::wellformed_exact', unwind=9)
@@ -184,7 +188,7 @@ for gk, gc, gd in GROUPS:
             bounds='' if k == 16 else 'GEN(2): at most 2 own men per kind, so at most one competing candidate', props=['C09'])
 
 reg('c09_san_simple_pawn_refused', 'C09', QT, 900, 8, 'the initial position x every Data::Simple value naming a pawn', 'c09::san_simple_pawn_refused', 's1', 66,
-    props=['C09', 'C02'])
+    props=['C09', 'C02'], gen_k=(1, 1))
 
 # ---------------------------------------------------------------- C12
 reg('c12_coord_parse', 'C12', QT, 300, 4, 'every UTF-8 string of at most 4 bytes', 'c12::coord_parse', unwind=8, props=['C12', 'C20'])
@@ -223,7 +227,7 @@ for (st, pre), ops in CHAIN_CASES.items():
         if code < 20 and ok in ('castling', 'ep', 'queen', 'knight', 'king'):
             variants.append(('_rep', 4))
         for suffix, flags in variants:
-            reg('c13_chain_step_s%d_p%d_%s%s' % (st, pre, ok, suffix), 'C13', T, 3600, 12 if code == 30 else 16,
+            reg('c13_chain_step_s%d_p%d_%s%s' % (st, pre, ok, suffix), 'C13', T, 3600, (12 if pre < 3 else 22) if code == 30 else (16 if pre < 3 else 24),
                 'chain state = stated start position %d after stated concrete prefix %d; one symbolic operation (%s)%s'
                 % (st, pre, what, (', calculated outcome compared' if flags & 2 else '') + (', repetition table compared' if flags & 4 else '')),
                 'c13::chain_step::<_, %d, %d, %d, %d>' % (st, pre, code, flags), 's13', 66,
@@ -291,11 +295,12 @@ QUICK = {
     'C14': ['c14_outcome_filter_table', 'c14_chain_outcome_precedence', 'c07_outcome_classification_w', 'c07_outcome_lone_king_b', 'c13_chain_step_s5_p4_other', 'c13_chain_step_s5_p4_knight_rep',
             'c13_chain_step_s3_p0_other'],
     'C15': ['c15_leapers_exact', 'c15_between_exact', 'c15_bishop_exact'],
-    'C16': ['c16_attackers_exact_w', 'c16_attackers_exact_b'],
+    'C16': ['c16_attackers_exact_w_by_white', 'c16_attackers_exact_w_by_black', 'c16_attackers_exact_b_by_white', 'c16_attackers_exact_b_by_black',
+            'c16_check_queries_exact_w', 'c16_check_queries_exact_b'],
     'C17': ['c17_walker_s1_p3_concrete', 'c17_walker_s5_p4_concrete', 'c17_walker_s0_p1_king'],
     'C18': ['c18_mirror_move_v_w_ep', 'c18_mirror_move_v_b_castling', 'c18_mirror_move_h_w_pspecial', 'c18_mirror_outcome_v_w', 'c18_mirror_outcome_h_b',
             'c06_semilegal_gen_pawns_all_w', 'c06_semilegal_gen_pawns_all_b'],
-    'C19': ['c15_bishop_exact', 'c05_scratch_hash_def', 'c16_attackers_exact_w', 'c06_semilegal_validator_b_castling', 'c06_semilegal_validator_w_ep',
+    'C19': ['c15_bishop_exact', 'c05_scratch_hash_def', 'c16_attackers_exact_w_by_black', 'c06_semilegal_validator_b_castling', 'c06_semilegal_validator_w_ep',
             'c03_make_unmake_b_pspecial', 'c03_make_unmake_w_castling', 'c06_semilegal_gen_pawns_all_w', 'c11_validate_exact_b'],
 }
 
@@ -332,7 +337,7 @@ THOROUGH = {
     'C18': ['c18_mirror_move_v_?_ep', 'c18_mirror_move_v_?_castling', 'c18_mirror_move_v_?_king', 'c18_mirror_move_v_w_pspecial', 'c18_mirror_move_v_b_pawn',
             'c18_mirror_move_v_w_queen', 'c18_mirror_move_v_b_knight', 'c18_mirror_move_v_w_foreign', 'c18_mirror_move_h_?_pspecial', 'c18_mirror_move_h_?_ep',
             'c18_mirror_move_h_w_king', 'c18_mirror_move_h_b_rook', 'c18_mirror_outcome_*', 'c18_mirror_gen_v_w', 'c18_mirror_gen_h_b', 'c06_semilegal_gen_pawns_all_?'],
-    'C19': ['c15_bishop_exact', 'c15_rook_exact', 'c05_scratch_hash_def', 'c16_attackers_exact_?', 'c06_semilegal_validator_?_castling', 'c06_semilegal_validator_?_ep',
+    'C19': ['c15_bishop_exact', 'c15_rook_exact', 'c05_scratch_hash_def', 'c16_attackers_exact_w_*', 'c16_check_queries_exact_b', 'c06_semilegal_validator_?_castling', 'c06_semilegal_validator_?_ep',
             'c06_semilegal_validator_w_queen', 'c06_semilegal_validator_b_pspecial', 'c03_make_unmake_?_pspecial', 'c03_make_unmake_?_castling', 'c03_make_unmake_w_ep',
             'c06_semilegal_gen_all_?', 'c06_semilegal_gen_pawns_all_?', 'c11_validate_exact_?', 'c01_prefiltered_w_queen', 'c01_prefiltered_b_ep'],
     'C20': ['c20_*', 'c12_coord_*', 'c12_color_parse', 'c12_cell_parse', 'c12_castling_*'],
